@@ -6,6 +6,21 @@ ALL = ["C%02d" % i for i in range(1, 21)]
 
 # id -> dict(level, text, note, technique, design, engine, thorough=True)
 CHECKS = {
+ "C01": dict(level="exploration",
+  text="Every listed serial of every scenario is probed with its own certificate through the real caddy module (reader -> store -> repository -> VerifyClientCertificate): A: all configurations source(3) x backend(2) x mode(4) x OCSP answer(3) x encoding with two list shapes; B: all list shapes N(1,2,3,5,40,300) x serial form(12) x entry extensions(3) x date form(2) with two configurations; cross-location cases; thorough adds a 100000-entry CRL on both backends with every position probed. Vacuity guard: an unlisted certificate must be accepted first.",
+  note="Bounded shape alphabet; the 10^6 scale of the statement is extrapolated from the per-entry loop being the same code for every entry.",
+  technique="bounded-exhaustive enumeration of (configuration, list shape) scenarios with every listed position probed on the implementation",
+  design="DESIGN.md §4 C01", engine="top-level world (caddy module)"),
+ "C03": dict(level="model_checking",
+  text="The complete truth table mode(6) x OCSP outcome(4) x aia_strict(2) x CRL outcome(4) x cdp_strict(2) x backend(2) x chain shape(3) = 2304 cells, each a fresh Provision -> VerifyClientCertificate -> Cleanup on the real caddy module with scripted OCSP/CRL origins; oracle: reject <=> enabled mechanism reports revoked or (strict) unavailable; side-effect monitors (disabled / ocsp_only never touch CRL origin or work_dir and need no crl_config, crl_only never contacts OCSP); unset == prefer_ocsp == prefer_crl cell by cell.",
+  note="Finite table enumerated completely (exhaustive is literal). Empty verifiedChains not judged.",
+  technique="exhaustive enumeration of a finite configuration/outcome table on the implementation",
+  design="DESIGN.md §4 C03", engine="top-level world (caddy module)"),
+ "C19": dict(level="exploration",
+  text="Every configuration tuple over 14 option dimensions (incl. invalid values and misspelt keys at the 4 nesting levels) from: all singles, all pairs, the full product of valid mode x storage x signature mode x fetch mode x cdp_strict crossed with every other option (quick) / with the full product of the others (thorough), rendered as Caddyfile and as JSON, each loaded for real (UnmarshalCaddyfile / StrictUnmarshalJSON + Provision + Cleanup) and compared: both syntaxes equal, effective parsed configuration equal to the documented meaning and defaults, invalid tuples rejected, valid tuples provision.",
+  note="Configured CRLs are signed by the harness CA; under verify without the trusted certificate loading may legitimately fail (then only syntax agreement is judged).",
+  technique="bounded-exhaustive configuration enumeration in both syntaxes against the documented meaning",
+  design="DESIGN.md §4 C19", engine="top-level world (caddy module)"),
  "C11": dict(level="model_checking",
   text="(1) Explicit-state BFS over histories {serve down | bad-signature{r} | parse-failure-after-entries{r} | unimplemented-critical-extension{r} | good{a} | good{}; probe-all; tick; background fetch completes; restart} to depth 4 (quick) / 5 (thorough) for fetch mode x backend, with a reference model of the list in force; oracle: a probe is reported revoked only if the list in force lists it (entries of rejected or superseded lists never revoke). (2) Exhaustive neighbourhood: one CRL of issuer A listing 6 serials (incl. >64-bit and 20-byte), every arithmetic/byte/decimal neighbour serial probed under issuer A and under 5 other issuers (different DN, DN + '_<digits>' suffix, other case, extra RDN), both backends.",
   note="Up to 64-bit FNV key collisions (excluded by the property). Canonical key includes store and work_dir digests.",
